@@ -445,7 +445,7 @@ def install_global():
         if hasattr(os, n):
             _real[n] = getattr(os, n)
     _real["builtins.open"] = builtins.open
-    for n in ("time", "time_ns", "monotonic", "monotonic_ns", "sleep"):
+    for n in ("time", "time_ns", "monotonic", "monotonic_ns", "sleep", "perf_counter", "perf_counter_ns"):
         _real["time." + n] = getattr(_time, n)
     wrappers = _mk_wrappers()
     for n in _OS_NAMES:
@@ -458,6 +458,8 @@ def install_global():
     _time.time_ns = _sim_time_ns
     _time.monotonic = _sim_monotonic
     _time.monotonic_ns = _sim_monotonic_ns
+    _time.perf_counter = lambda: _sim_monotonic() if _active() else _real["time.perf_counter"]()
+    _time.perf_counter_ns = lambda: _sim_monotonic_ns() if _active() else _real["time.perf_counter_ns"]()
     _time.sleep = _sim_sleep
     _STATE["installed"] = True
 
